@@ -15,13 +15,31 @@ import (
 //   steps — field selections ".3" and element selections "[c5]" / "[v:t7]"
 type apath struct {
 	root  ssa.Value
-	steps []string
+	steps []step
 	typ   types.Type // type of the designated location
 	disp  string     // human readable
 }
 
+// step: ".f" of struct type st (field index f) or an element selection.
+type step struct {
+	key   string       // ".3", "[c5]", "[v:t7]"
+	st    types.Type   // struct type for field steps
+	field int
+}
+
 func (p *apath) key() string {
-	return fmt.Sprintf("%p", p.root) + strings.Join(p.steps, "")
+	k := fmt.Sprintf("%p", p.root)
+	for _, s := range p.steps {
+		k += s.key
+	}
+	return k
+}
+
+func (p *apath) lastField() (step, bool) {
+	if n := len(p.steps); n > 0 && p.steps[n-1].st != nil {
+		return p.steps[n-1], true
+	}
+	return step{}, false
 }
 
 func rootName(v ssa.Value) string {
@@ -52,7 +70,7 @@ func (a *FuncAn) pathOf(v ssa.Value) *apath {
 			return nil
 		}
 		f := st.Field(x.Field)
-		return &apath{root: base.root, steps: append(append([]string(nil), base.steps...), fmt.Sprintf(".%d", x.Field)),
+		return &apath{root: base.root, steps: append(append([]step(nil), base.steps...), step{key: fmt.Sprintf(".%d", x.Field), st: derefType(x.X.Type()), field: x.Field}),
 			typ: f.Type(), disp: base.disp + "." + f.Name()}
 	case *ssa.IndexAddr:
 		var base *apath
@@ -70,7 +88,7 @@ func (a *FuncAn) pathOf(v ssa.Value) *apath {
 			base = &apath{root: sv, typ: sv.Type(), disp: a.valName(sv)}
 		}
 		ik, id := a.indexKey(x.Index)
-		return &apath{root: base.root, steps: append(append([]string(nil), base.steps...), "["+ik+"]"), typ: et, disp: base.disp + "[" + id + "]"}
+		return &apath{root: base.root, steps: append(append([]step(nil), base.steps...), step{key: "[" + ik + "]"}), typ: et, disp: base.disp + "[" + id + "]"}
 	case *ssa.ChangeType:
 		return a.pathOf(x.X)
 	case *ssa.Convert:
@@ -173,15 +191,15 @@ func (a *FuncAn) valName(v ssa.Value) string {
 }
 
 // stepsDisjoint: two step lists from the same root designate provably different locations.
-func stepsDisjoint(p, q []string) bool {
+func stepsDisjoint(p, q []step) bool {
 	for i := 0; i < len(p) && i < len(q); i++ {
-		if p[i] == q[i] {
+		if p[i].key == q[i].key {
 			continue
 		}
-		if p[i][0] == '.' && q[i][0] == '.' {
+		if p[i].key[0] == '.' && q[i].key[0] == '.' {
 			return true
 		}
-		if strings.HasPrefix(p[i], "[c") && strings.HasPrefix(q[i], "[c") {
+		if strings.HasPrefix(p[i].key, "[c") && strings.HasPrefix(q[i].key, "[c") {
 			return true
 		}
 		return false
@@ -291,5 +309,68 @@ func (a *FuncAn) mayAlias(p, w *apath) bool {
 	if pIsGlobal && wIsGlobal {
 		return false
 	}
-	return typesOverlap(p.typ, w.typ)
+	return writeKills(writeOfPath(w), p)
+}
+
+// ---------------------------------------------------------------------------
+// write descriptors: how a location was written decides what it may overlap (Go without unsafe)
+
+type writeDesc struct {
+	kind  byte       // 'f' store through a field address, 'e' element of a slice/array, 'd' through any other pointer
+	typ   types.Type // type of the written location
+	st    types.Type // 'f': struct type
+	field int        // 'f': field index
+}
+
+func writeOfPath(w *apath) writeDesc {
+	if n := len(w.steps); n > 0 {
+		if l := w.steps[n-1]; l.st != nil {
+			return writeDesc{kind: 'f', typ: w.typ, st: l.st, field: l.field}
+		}
+		return writeDesc{kind: 'e', typ: w.typ}
+	}
+	return writeDesc{kind: 'd', typ: w.typ}
+}
+
+// writeKills: a write described by w (to a location not provably distinct by roots) may change location p.
+//   - a field of struct S is changed by: a store to the same field of S; a store of a whole value that
+//     contains S (element / pointer / field write whose type contains S); a store through a plain pointer of
+//     the field's type (the field's address may have been taken).
+//   - an element or pointer target is changed by any write whose type overlaps.
+func writeKills(w writeDesc, p *apath) bool {
+	hasField := false
+	for _, s := range p.steps {
+		if s.st == nil {
+			continue
+		}
+		hasField = true
+		if w.kind == 'f' && types.Identical(w.st, s.st) && w.field == s.field {
+			return true
+		}
+		// the write replaces a whole value that contains this struct
+		if typeContains(w.typ, s.st, 0) {
+			return true
+		}
+	}
+	if !hasField {
+		return typesOverlap(w.typ, p.typ)
+	}
+	last, isField := p.lastField()
+	_ = last
+	if !isField {
+		// element below a field (x.f[i]): element writes and pointer writes of overlapping type
+		if w.kind != 'f' {
+			return typesOverlap(w.typ, p.typ)
+		}
+		return typeContains(w.typ, p.typ, 0)
+	}
+	switch w.kind {
+	case 'f':
+		return false // a different field (same fields were handled above)
+	case 'e':
+		return false // slice/array elements are not struct fields unless the element type contains the struct (handled above)
+	default:
+		// through a plain pointer: could be the address of this very field
+		return typesOverlap(w.typ, p.typ)
+	}
 }
